@@ -269,13 +269,10 @@ void Recorder::observe(Point p, CoreParams const& params, CoreState<MemSpace::ho
             o.pos[k] = pos[k];
             o.dir[k] = dir[k];
         }
-        if (sim.status() != TrackStatus::errored)
-        {
-            o.outside = geo.is_outside();
-            o.on_boundary = geo.is_on_boundary();
-            if (!geo.is_outside())
-                o.volume = idv(geo.volume_id());
-        }
+        o.outside = geo.is_outside();
+        o.on_boundary = geo.is_on_boundary();
+        if (!geo.is_outside())
+            o.volume = idv(geo.volume_id());
         MaterialTrackView mat(pref.materials, sref.materials, tid);
         o.material = idv(mat.material_id());
 
